@@ -150,6 +150,10 @@ func one(v Vec) (why string) {
 	w := hx.InitRepo(filepath.Join(dir, "W"))
 	defer w.Close()
 	hx.Must(w.AddRemote("origin", filepath.Join(dir, "hub")))
+	// a second remote that receives the author's first version only: what a long-running process has loaded before the rest arrives
+	early := hx.InitBare(filepath.Join(dir, "early"))
+	defer early.Close()
+	hx.Must(w.AddRemote("early", filepath.Join(dir, "early")))
 	keysOf := func(ks []int) []*identity.Key {
 		var r []*identity.Key
 		for _, k := range ks {
@@ -198,6 +202,10 @@ func one(v Vec) (why string) {
 			}
 		}
 		hx.Must(author.Commit(w))
+		if i == 0 {
+			_, err := identity.Push(w, "early")
+			hx.Must(err)
+		}
 	}
 	// the commit under test: a single-commit bug written by hand at logical time et
 	blob := packBlob(author, "the content that was signed", 1_600_000_000)
@@ -344,6 +352,60 @@ func one(v Vec) (why string) {
 	}
 	if !v.Accept && rerr == nil {
 		return "specification refuses; bug.Read accepted the commit"
+	}
+	if len(v.Hist) < 2 {
+		return ""
+	}
+	// the same verdict from a process that has had the cache open since the author's first version: it pulled that version,
+	// resolved the author (the identity is in memory), and now pulls the later versions together with the commit under test
+	r2 := hx.InitRepo(filepath.Join(dir, "R2"))
+	defer r2.Close()
+	hx.Must(r2.AddRemote("origin", filepath.Join(dir, "hub")))
+	hx.Must(r2.AddRemote("early", filepath.Join(dir, "early")))
+	reader2, err := identity.NewIdentity(r2, "reader", "r@example.org")
+	hx.Must(err)
+	hx.Must(reader2.Commit(r2))
+	hx.Must(identity.SetUserIdentity(r2, reader2))
+	c2, err := hx.OpenCache(r2)
+	hx.Must(err)
+	defer c2.Close()
+	if _, err := c2.Fetch("early"); err != nil {
+		return "cache: fetching the first version: " + err.Error()
+	}
+	for res := range c2.MergeAll("early") {
+		if res.Err != nil {
+			return "cache: merging the first version: " + res.Err.Error()
+		}
+	}
+	if _, err := c2.Identities().Resolve(author.Id()); err != nil {
+		return "cache: the author is not known after the first pull: " + err.Error()
+	}
+	if _, err := c2.Fetch("origin"); err != nil {
+		return "cache: fetch: " + err.Error()
+	}
+	status, reason, n = 0, "", 0
+	for res := range c2.MergeAll("origin") {
+		if res.Id == id {
+			status, reason = res.Status, res.Reason
+			if res.Err != nil {
+				reason = res.Err.Error()
+			}
+			n++
+		}
+	}
+	if n != 1 {
+		return fmt.Sprintf("cache: MergeAll produced %d results for the bug", n)
+	}
+	if v.Accept && status != entity.MergeStatusNew {
+		return fmt.Sprintf("cache with the author loaded since the first version: specification accepts (keys in force %v, signer %d, altered %v); merge reported status %d: %s", v.KeysAt, v.C.Signer, v.C.Altered, status, reason)
+	}
+	if !v.Accept {
+		if status != entity.MergeStatusInvalid {
+			return fmt.Sprintf("cache with the author loaded since the first version: specification refuses (keys in force %v, signer %d, altered %v); merge reported status %d", v.KeysAt, v.C.Signer, v.C.Altered, status)
+		}
+		if ok, _ := r2.RefExist("refs/bugs/" + id.String()); ok {
+			return "cache with the author loaded since the first version: refused commit became a local bug"
+		}
 	}
 	return ""
 }
